@@ -340,7 +340,8 @@ impl Hash for Primitive {
             BigInt(x) => x.hash(state),
             BuiltInFunction(x) => x.hash(state),
             Byte(x) => x.hash(state),
-            Float(x) => integer_decode(*x).hash(state),
+            // `0.0 == -0.0`: the two zeros are one key, so they must hash alike
+            Float(x) => integer_decode(if *x == 0.0 { 0.0 } else { *x }).hash(state),
             Function(x) => x.hash(state),
             // A map is never equal to another value (see `PartialEq for GcMap`), so its identity is a
             // consistent hash. A map is not accepted as a key, but it may be a field of an object that is.
